@@ -1318,9 +1318,10 @@ class Interp:
         elif isinstance(st, ast.Pass):
             pass
         elif isinstance(st, (ast.FunctionDef, ast.AsyncFunctionDef)):
-            if st.decorator_list:
-                raise AnalysisError(f"interp: decorated nested function {st.name}")
-            scopes[-1][st.name] = Func(self, st, scopes, st.name)
+            f = Func(self, st, scopes, st.name)
+            for d in reversed(st.decorator_list):
+                f = self.ev(d, scopes)(f)
+            scopes[-1][st.name] = f
         elif isinstance(st, ast.Raise):
             if st.exc is None:
                 raise AnalysisError("interp: bare raise")
